@@ -159,7 +159,7 @@ class ViewBase:
 
     def _index_rows(self, idx):
         if self._dtype == np.int32:
-            return np.atleast_1d(self._codes.view(np.uint64)[idx]).view(self._dtype)
+            return np.ascontiguousarray(np.atleast_1d(self._codes.view(np.uint64)[idx])).view(self._dtype)
         else:
             return self._codes.reshape(-1, 2)[idx].ravel()
 
